@@ -38,11 +38,26 @@ def getMinMaxValues (bits : Nat) (unsigned : Bool) : Option (Int × Int) :=
     else some (-(2 ^ 63), 2 ^ 63 - 1)
   else none
 
+/-- 731a3b3: `characterLiteralToLL` values an ordinary one-character literal (`tok->isCChar()`) with the char of the
+    host; `valueFlowSetConstantValue` re-reads it with the signedness of the analysed platform.
+    `charSign`: `some true` = defaultSign 'u', `some false` = 's', `none` = unspecified;
+    `unsignedCharMax() + 1 = 2^charBit`, `signedCharMax() = 2^(charBit-1) - 1`. -/
+def charAdjust (v : Int) (cchar : Bool) (charSign : Option Bool) (charBit : Nat) : Int :=
+  if cchar then
+    match charSign with
+    | some true => if v < 0 then v + 2 ^ charBit else v
+    | some false => if v > 2 ^ (charBit - 1) - 1 then v - 2 ^ charBit else v
+    | none => v
+  else v
+
 /-- integer/char literal branch of `valueFlowSetConstantValue` + guard of `setTokenValue`:
-    `signedValue` = result of `toBigNumber`, `unsigned` = (vt->sign == UNSIGNED), `size` = vt->getSizeOf,
+    `signedValue` = result of `toBigNumber`, `cchar`/`charSign`/`charBit` see `charAdjust`,
+    `unsigned` = (vt->sign == UNSIGNED), `size` = vt->getSizeOf,
     `bits` = bit count `getMinMaxValues` finds for the type (`none`: not an integral non-pointer type).
     Result `none`: no value is attached to the token. -/
-def constValue (signedValue : Int) (unsigned : Bool) (size : Nat) (bits : Option Nat) : Option Int :=
+def constValue (signedValue : Int) (cchar : Bool) (charSign : Option Bool) (charBit : Nat)
+    (unsigned : Bool) (size : Nat) (bits : Option Nat) : Option Int :=
+  let signedValue := charAdjust signedValue cchar charSign charBit
   let v :=
     if unsigned && signedValue < 0 && size < 8 then
       match bits.bind (getMinMaxValues · true) with
